@@ -38,7 +38,9 @@ def fmtEvt (s : St) (e : Evt) : String :=
 
 def fmtOut (s : St) : Out → String
   | .ret code => s!"= {code}"
-  | .invoke cb m evts => s!"INVOKE {cb} {handleOf s m}" ++ String.join (evts.map fun e => " " ++ fmtEvt s e)
+  | .invoke cb m evts =>
+    let st := match s.mods[m]? with | some md => stLetter md.state | none => "?"
+    s!"INVOKE {cb} {handleOf s m}:{st}" ++ String.join (evts.map fun e => " " ++ fmtEvt s e)
   | .free p => s!"free p{p}"
   | .close w => s!"close {w}"
   | .note t => t
